@@ -69,6 +69,27 @@ func c11Scenario(name string, clients []gridClient, srvBudget int) *explore.Scen
 				scfg.ClientAuth = tls.RequestClientCert
 			}
 			prep := g.prepare()
+			// resumed: a first connection through the same Config and session cache, then the compared one
+			resumed := x.Choose("cli.resumed", 2) == 1
+			if resumed {
+				ccfg.ClientSessionCache = tls.NewLRUClientSessionCache(4)
+				ccfg.PreferSkipResumptionOnNilExtension = true
+				w := peer.Run(ccfg, g.ID, scfg, peer.Opts{Echo: true, Prepare: func(u *tls.UConn) error {
+					if prep != nil {
+						if err := prep(u); err != nil {
+							return err
+						}
+					}
+					if sniMode == 1 {
+						return u.RemoveSNIExtension()
+					}
+					return nil
+				}})
+				if !(w.OK() && w.EchoOK) {
+					r.Obs = "first-connection-failed"
+					return
+				}
+			}
 			hs := peer.Run(ccfg, g.ID, scfg, peer.Opts{KeepOpen: true, Echo: true, Prepare: func(u *tls.UConn) error {
 				if prep != nil {
 					if err := prep(u); err != nil {
@@ -82,6 +103,9 @@ func c11Scenario(name string, clients []gridClient, srvBudget int) *explore.Scen
 			}})
 			defer hs.Finish()
 			what := fmt.Sprintf("%s sni-mode=%d vs server{%s clientauth=%v}", g.Name, sniMode, sc.desc, clientAuth)
+			if resumed {
+				what += " second connection through one session cache"
+			}
 			if !(hs.OK() && hs.EchoOK) {
 				r.Obs = "handshake-failed:" + whoFailed(hs) // C10's business
 				r.Count("handshake_failed", 1)
@@ -98,7 +122,10 @@ func c11Scenario(name string, clients []gridClient, srvBudget int) *explore.Scen
 			}
 			cs, ss := hs.U.ConnectionState(), hs.S.ConnectionState()
 			r.Nontrivial = true
-			r.Class = fmt.Sprintf("%s|%d|%s|%v", g.Name, sniMode, sc.desc, clientAuth)
+			r.Class = fmt.Sprintf("%s|%d|%s|%v|%v", g.Name, sniMode, sc.desc, clientAuth, resumed)
+			if cs.DidResume {
+				r.Count("resumed_compared", 1)
+			}
 			diff := func(field string, a, b any) {
 				if fmt.Sprint(a) != fmt.Sprint(b) {
 					r.Violate("C11|disagree|"+field, "%s: %s: client reports %v, server reports %v", what, field, a, b)
@@ -163,10 +190,11 @@ func c11Scenarios(thorough bool) []*explore.Scenario {
 func init() {
 	register(&Prop{ID: "C11", Level: "exploration", Variant: "A", Scenarios: c11Scenarios,
 		Run: func(c *explore.Check, thorough bool) {
-			c.Rule = "successful handshakes of the C10 grid (client x offered server choices, <=1 (2) server-axis deviations) x SNI mode {name, RemoveSNIExtension, IP literal, empty} x server {no client auth, RequestClientCert}: both ConnectionStates compared field by field (version, suite, ALPN, curve, DidResume, ECHAccepted, ServerName == SNI parsed from the wire) and ExportKeyingMaterial compared for 27 (label, context, length) triples. distinct = (client, sni mode, server choice, client auth). Resumed and ECH handshakes are compared by the same oracle inside C19/C15."
+			c.Rule = "successful handshakes of the C10 grid (client x offered server choices, <=1 (2) server-axis deviations) x SNI mode {name, RemoveSNIExtension, IP literal, empty} x server {no client auth, RequestClientCert} x {first connection, second connection through the same Config and session cache (resumed where the parrot can)}: both ConnectionStates compared field by field (version, suite, ALPN, curve, DidResume, ECHAccepted, ServerName == SNI parsed from the wire) and ExportKeyingMaterial compared for 27 (label, context, length) triples. distinct = (client, sni mode, server choice, client auth). ECH handshakes are compared by the same oracle inside C15."
 			c.Assumptions = []string{"EKM bytes are compared when both sides return bytes; a one-sided refusal is accepted only for the two documented reasons (renegotiation enabled, TLS<=1.2 without EMS)"}
 			runAll(c, c11Scenarios(thorough), 0)
 			c.Gate(c.Total.Counters["ekm_both_succeed"] >= 1000, "non-vacuity: %d both-succeed EKM comparisons", c.Total.Counters["ekm_both_succeed"])
+			c.Gate(c.Total.Counters["resumed_compared"] >= 100, "non-vacuity: %d resumed connections compared", c.Total.Counters["resumed_compared"])
 			c.Gate(c.Total.Counters["compared_connections"] >= 500, "non-vacuity: %d compared connections", c.Total.Counters["compared_connections"])
 		}})
 }
